@@ -146,7 +146,7 @@ func (r *errRec) signature() string {
 			tag = "stale"
 		}
 	case why == "colour":
-		if r.feat("PremultipliedBytesEqual") {
+		if r.feat("PremultipliedBytesEqual") && rawEq(r.gotField("col"), r.E.Feats["PrevColour"]) {
 			tag = "stale:premultiplied-bytes-equal"
 		}
 	case why == "knockout":
@@ -154,15 +154,31 @@ func (r *errRec) signature() string {
 			tag = "fill-stroke-translucent-same-alpha"
 		}
 	case why == "outline-region":
-		var fs []string
-		if r.feat("DashedWidthNotOne") {
-			fs = append(fs, "dashed-width-not-one")
+		// deviation patterns decided on the performed paint: its region equals the stroke with unscaled dashes / equals the
+		// requested stroke when read with the non-zero rule
+		var draw int
+		json.Unmarshal(r.E.Exp["draw"], &draw)
+		var ou, onz, ounz []int
+		var rule int
+		json.Unmarshal(r.gotField("ounz"), &ounz)
+		json.Unmarshal(r.gotField("ou"), &ou)
+		json.Unmarshal(r.gotField("onz"), &onz)
+		json.Unmarshal(r.gotField("rule"), &rule)
+		has := func(l []int) bool {
+			for _, v := range l {
+				if v == draw {
+					return true
+				}
+			}
+			return false
 		}
-		if r.feat("StrokeEvenOdd") {
-			fs = append(fs, "evenodd")
-		}
-		if len(fs) > 0 {
-			tag = strings.Join(fs, "+")
+		switch {
+		case r.feat("DashedWidthNotOne") && has(ou):
+			tag = "dash-not-scaled-by-width"
+		case rule == 1 && has(onz):
+			tag = "outline-filled-evenodd"
+		case r.feat("DashedWidthNotOne") && rule == 1 && has(ounz):
+			tag = "dash-not-scaled-by-width+outline-filled-evenodd" // both deviations at once
 		}
 	}
 	if tag == "" {
@@ -242,6 +258,7 @@ func traceOfGuarded(h *Header, be string, id int, prog []Draw) (out []byte, n in
 
 // validate runs the trace specification on one trace file.
 func validate(c *core.Ctx, trace []byte, strict bool) (*tlc.Result, []errRec) {
+	trace = append(append([]byte(nil), trace...), []byte("{\"op\":\"EOF\"}\n")...)
 	res := c.TLC(tlc.Opts{Module: "Trace_GState", Workers: 1, Files: map[string][]byte{"trace_gstate.ndjson": trace}, Config: traceCfg(strict), Timeout: 20 * time.Minute}, false)
 	var errs []errRec
 	for _, l := range res.Lines {
@@ -255,9 +272,9 @@ func validate(c *core.Ctx, trace []byte, strict bool) (*tlc.Result, []errRec) {
 
 // check1 validates one program on one back-end alone: diagnostic pass for the reason, strict pass for the verdict.
 func check1(c *core.Ctx, h *Header, be string, prog []Draw) []core.Mismatch {
-	file, err := renderChild(Scenario{Be: be, Prog: prog, Hdr: h}, 20*time.Second)
+	file, err := renderChild(Scenario{Be: be, Prog: prog, Hdr: h}, 10*time.Second)
 	if err == errTimeout {
-		return []core.Mismatch{{Signature: be + "-timeout-render" + timeoutTag(prog), Detail: "the back-end does not return within 20 s for program " + string(mustJSON(prog))}}
+		return []core.Mismatch{{Signature: be + "-timeout-render" + timeoutTag(prog), Detail: "the back-end does not return within 10 s for program " + string(mustJSON(prog))}}
 	}
 	var tr []byte
 	if err == nil {
@@ -369,8 +386,8 @@ func (d Driver) Run(c *core.Ctx) error {
 		c.TLC(o, true)
 	}
 	collect(tlc.Opts{Module: "GState", Config: genCfg("sub2", 0, 0, false)})
-	collect(tlc.Opts{Module: "GState", Config: genCfg("rand", 3, c.Pick(2500, 40000), false), Seed: c.Seed})
-	collect(tlc.Opts{Module: "GState", Config: genCfg("rand", 4, c.Pick(1500, 30000), false), Seed: c.Seed + 1})
+	collect(tlc.Opts{Module: "GState", Config: genCfg("rand", 3, c.Pick(1200, 40000), false), Seed: c.Seed})
+	collect(tlc.Opts{Module: "GState", Config: genCfg("rand", 4, c.Pick(600, 30000), false), Seed: c.Seed + 1})
 	if c.Thorough() {
 		collect(tlc.Opts{Module: "GState", Config: genCfg("sub2big", 0, 0, false)})
 	}
@@ -469,29 +486,41 @@ func (d Driver) Run(c *core.Ctx) error {
 	// 3b. dash offset without a dash array: rendered in a child process (the pdf back-end may not return)
 	nBulk := len(progs)
 	collect(tlc.Opts{Module: "GState", Config: genCfg("solidoff", 0, 0, false)})
-	for i := nBulk; i < len(progs); i++ {
-		for bi, be := range backends {
-			sc := Scenario{Be: be, Prog: progs[i].Prog, Hdr: h}
-			file, err := renderChild(sc, 20*time.Second)
-			if err == errTimeout {
-				c.Count(1, 0, 0)
-				c.Report(sc, []core.Mismatch{{Signature: be + "-timeout-render" + timeoutTag(progs[i].Prog), Detail: "the back-end does not return within 20 s for program " + string(mustJSON(progs[i].Prog))}})
-				continue
+	type job struct{ i, bi int }
+	jobs := make(chan job, 256)
+	go func() {
+		for i := nBulk; i < len(progs); i++ {
+			for bi := range backends {
+				jobs <- job{i, bi}
 			}
-			if err != nil {
-				c.Broken("child render: " + err.Error())
-				continue
-			}
-			tr, n, err := traceFromFile(h, be, i*3+bi, progs[i].Prog, file)
-			if err != nil {
-				c.Report(sc, []core.Mismatch{{Signature: be + "-unreadable-output", Detail: err.Error()}})
-				continue
-			}
-			chunks[nChunks].Write(tr)
-			nEvents += int64(n)
-			nTraces++
 		}
-	}
+		close(jobs)
+	}()
+	var cmu sync.Mutex
+	core.Parallel(12, jobs, func(j job) {
+		i, bi, be := j.i, j.bi, backends[j.bi]
+		sc := Scenario{Be: be, Prog: progs[i].Prog, Hdr: h}
+		file, err := renderChild(sc, 10*time.Second)
+		if err == errTimeout {
+			c.Count(1, 0, 0)
+			c.Report(sc, []core.Mismatch{{Signature: be + "-timeout-render" + timeoutTag(progs[i].Prog), Detail: "the back-end does not return within 10 s for program " + string(mustJSON(progs[i].Prog))}})
+			return
+		}
+		if err != nil {
+			c.Broken("child render: " + err.Error())
+			return
+		}
+		tr, n, err := traceFromFile(h, be, i*3+bi, progs[i].Prog, file)
+		if err != nil {
+			c.Report(sc, []core.Mismatch{{Signature: be + "-unreadable-output", Detail: err.Error()}})
+			return
+		}
+		cmu.Lock()
+		chunks[nChunks].Write(tr)
+		cmu.Unlock()
+		atomic.AddInt64(&nEvents, int64(n))
+		atomic.AddInt64(&nTraces, 1)
+	})
 	nChunks++
 
 	lap("render+lex")
@@ -520,29 +549,42 @@ func (d Driver) Run(c *core.Ctx) error {
 	lap("validate")
 	// 5. verdicts: every class of divergence is first re-validated alone with the strict variant
 	sort.Slice(allErrs, func(i, j int) bool { return allErrs[i].E.Pid < allErrs[j].E.Pid })
-	confirmed := map[string]int{}
 	bySig := map[string]int64{}
+	first := map[string]*errRec{}
+	var sigs []string
+	for i := range allErrs {
+		sig := allErrs[i].signature()
+		bySig[sig]++
+		if first[sig] == nil {
+			first[sig] = &allErrs[i]
+			sigs = append(sigs, sig)
+		}
+	}
+	confirmed := sync.Map{}
+	sch := make(chan string, len(sigs)+1)
+	for _, sg := range sigs {
+		sch <- sg
+	}
+	close(sch)
+	core.Parallel(8, sch, func(sig string) {
+		r := first[sig]
+		ms := check1(c, h, r.E.Be, progs[r.E.Pid/3].Prog)
+		for _, m := range ms {
+			if m.Signature == sig {
+				confirmed.Store(sig, true)
+				return
+			}
+		}
+		c.Broken(fmt.Sprintf("divergence %s of program %d is not confirmed when validated alone: %v", sig, r.E.Pid, ms))
+	})
 	for i := range allErrs {
 		r := &allErrs[i]
 		sig := r.signature()
-		bySig[sig]++
-		prog := progs[r.E.Pid/3].Prog
-		sc := Scenario{Be: r.E.Be, Prog: prog, Hdr: h}
-		if confirmed[sig] < 1 {
-			confirmed[sig]++
-			ms := check1(c, h, r.E.Be, prog)
-			ok := false
-			for _, m := range ms {
-				if m.Signature == sig {
-					ok = true
-				}
-			}
-			if !ok {
-				c.Broken(fmt.Sprintf("divergence %s of program %d is not confirmed when validated alone: %v", sig, r.E.Pid, ms))
-				continue
-			}
+		if _, ok := confirmed.Load(sig); !ok {
+			continue
 		}
-		c.Report(sc, []core.Mismatch{{Signature: sig, Detail: r.detail(prog)}})
+		prog := progs[r.E.Pid/3].Prog
+		c.Report(Scenario{Be: r.E.Be, Prog: prog, Hdr: h}, []core.Mismatch{{Signature: sig, Detail: r.detail(prog)}})
 	}
 	c.SetExtra("divergences_by_signature", bySig)
 
